@@ -41,7 +41,7 @@ type tsigSpec struct {
 }
 
 type faultSpec struct {
-	Kind string // "" id rcode nosoa cut stall runt alter strip wrongkey chain stale drop dup swap
+	Kind string // "" id rcode nosoa cut stall runt maclen alter strip wrongkey chain stale drop dup swap
 	Env  int    // envelope index (taken modulo the number of envelopes)
 	K    int    // cut: octet (mod stream length); alter: offset (mod covered region)
 	Val  int    // id: xor mask; rcode: code; alter: xor mask; nosoa/chain/wrongkey: variant
@@ -274,7 +274,7 @@ func (c xferCase) valid() string {
 		return "bad request kind"
 	}
 	if c.Transport != "" {
-		ok := map[string]bool{"": true, "id": true, "rcode": true, "nosoa": true, "alter": true, "strip": true, "wrongkey": true, "chain": true, "stale": true}
+		ok := map[string]bool{"": true, "id": true, "rcode": true, "nosoa": true, "alter": true, "strip": true, "wrongkey": true, "chain": true, "stale": true, "maclen": true}
 		if c.Transport != "dgram" || c.Mode == "axfr" || c.Sender != "harness" || !ok[c.Fault.Kind] || c.timed() || c.UDPSize < 0 || c.UDPSize > 65535 {
 			return "datagram transport: IXFR question, harness sender, envelope-level faults only"
 		}
@@ -497,6 +497,22 @@ func alterClass(b []byte, t wireTsig, at int, x byte, full bool) (string, bool) 
 	}
 }
 
+func macLenName(l, full int) string {
+	switch {
+	case l == 0:
+		return "0"
+	case l < 10:
+		return "1..9"
+	case l < full/2:
+		return "10..half-1"
+	case l < full:
+		return "half..full-1"
+	case l == full:
+		return "full"
+	}
+	return "longer"
+}
+
 func packEnvelope(c xferCase, recs []recSpec) []byte {
 	m := new(dns.Msg)
 	m.Id = c.QID
@@ -627,6 +643,42 @@ func buildPlan(c xferCase, reqMAC []byte, now uint64) plan {
 		out, mac, tsigOff := tsigSign(mb, k, nameOnWire, o)
 		macs = append(macs, mac)
 		prev = mac
+		if hit && f.Kind == "maclen" {
+			// only the LENGTH of the MAC differs (MAC Size and RDLENGTH consistent): a prefix of the
+			// genuine MAC, or the genuine MAC plus extra octets. RFC 8945 §5.2.2.1: fewer octets than
+			// max(10, half the hash) or more than the hash must be refused; in between local policy decides.
+			full := len(mac)
+			lens := []int{0, 1, 9, 10, full / 2, full - 1, full + 1, full + 4}
+			l := lens[f.Val%len(lens)]
+			min := full / 2
+			if min < 10 {
+				min = 10
+			}
+			must := l < min || l > full
+			nm := append(append([]byte{}, mac...), 0xAA, 0xBB, 0xCC, 0xDD)[:l]
+			body := mb
+			if l == 0 && f.K%2 == 1 {
+				// an empty MAC proves nothing: the envelope may as well carry forged records
+				forged := append([]recSpec{}, recs...)
+				at := len(forged) - 1
+				if at < 1 {
+					at = len(forged)
+				}
+				forged = append(forged[:at:at], append([]recSpec{{T: "A", Owner: "forged", V: 66}}, forged[at:]...)...)
+				body = packEnvelope(c, forged)
+				fr.recs = strs(c.Zone, forged)
+				p.alterAt = "0+forged-records"
+			} else {
+				p.alterAt = macLenName(l, full)
+			}
+			out, _ = tsigAppend(body, k, nameOnWire, o, nm)
+			p.prefix = true
+			if must {
+				p.firstBad, p.strong = i, true
+			}
+			fr.b = out
+			return fr
+		}
 		if hit && f.Kind == "strip" {
 			p.firstBad, p.strong, p.prefix = i, true, true
 			return fr // unsigned
@@ -1358,12 +1410,12 @@ func checkXfer(c xferCase) error {
 		case p.strong:
 			classes = append(classes, "expect=error", "errkind="+errKind(firstErr(r)))
 			if p.alterAt != "" {
-				classes = append(classes, fmt.Sprintf("alter=%s/first=%v/must", p.alterAt, c.Fault.Env%len(c.Sizes) == 0))
+				classes = append(classes, fmt.Sprintf("%s=%s/first=%v/must", c.Fault.Kind, p.alterAt, c.Fault.Env%len(c.Sizes) == 0))
 			}
 		default:
 			classes = append(classes, "expect=terminates-only")
 			if p.alterAt != "" {
-				classes = append(classes, fmt.Sprintf("alter=%s/first=%v/may(detected=%v)", p.alterAt, c.Fault.Env%len(c.Sizes) == 0, firstErr(r) != nil))
+				classes = append(classes, fmt.Sprintf("%s=%s/first=%v/may(detected=%v)", c.Fault.Kind, p.alterAt, c.Fault.Env%len(c.Sizes) == 0, firstErr(r) != nil))
 			}
 		}
 		if len(r.envs) > 0 && firstErr(r) == nil && len(r.envs) == nenv {
@@ -1605,7 +1657,7 @@ func genSizes(t *rapid.T, n int) []int {
 }
 
 var strongPlain = []string{"id", "rcode", "nosoa", "cut", "cut", "drop", "runt"}
-var strongTsig = []string{"id", "rcode", "nosoa", "cut", "alter", "alter", "strip", "wrongkey", "chain", "chain", "drop", "dup", "swap", "stale", "runt"}
+var strongTsig = []string{"id", "rcode", "nosoa", "cut", "alter", "alter", "strip", "wrongkey", "chain", "chain", "drop", "dup", "swap", "stale", "runt", "maclen", "maclen"}
 var weakPlain = []string{"alter", "dup", "swap"}
 
 func genCase(t *rapid.T) xferCase {
@@ -1750,7 +1802,7 @@ func genCase(t *rapid.T) xferCase {
 			c.BadRequest = rapid.SampledFrom([]string{"nokey", "badalg", "longlabel"}).Draw(t, "badkind")
 		}
 	}
-	dgOK := map[string]bool{"": true, "id": true, "rcode": true, "nosoa": true, "alter": true, "strip": true, "wrongkey": true, "chain": true, "stale": true}
+	dgOK := map[string]bool{"": true, "id": true, "rcode": true, "nosoa": true, "alter": true, "strip": true, "wrongkey": true, "chain": true, "stale": true, "maclen": true}
 	if c.Sender == "harness" && c.Dial == "" && c.BadRequest == "" && c.Mode != "axfr" && dgOK[c.Fault.Kind] && !big && rapid.IntRange(0, 5).Draw(t, "dgram") == 0 {
 		// IXFR over UDP: the caller hands Transfer.In a datagram conn; answers of 400..4000 octets
 		c.Transport = "dgram"
